@@ -634,6 +634,11 @@ def check(case):
                     case.close(g, gw, rtol=1e-5 if pk_ else 1e-6,
                                atol=(1e-7 * float(np.max(np.abs(gw))) + 1e-8) if pk_ else 1e-8,
                                what='gradient of the individual posterior')
+                    # the posterior handed out keeps scoring the same data and regimen after a gradient evaluation
+                    case.close(sc, float(np.real(f(v_free))), rtol=1e-6, atol=1e-8,
+                               what='score returned with the gradient of the individual posterior')
+                    case.close(P(v_free.copy()), float(np.real(f(v_free))), rtol=1e-6, atol=1e-8,
+                               what='log-posterior of individual %s evaluated AFTER its gradient' % ids[i])
     else:
         with case.clause('posterior_hierarchical'):
             P = ctrl.get_log_posterior()
@@ -659,6 +664,11 @@ def check(case):
                     case.close(g, gw, rtol=1e-5 if pk_ else 1e-6,
                                atol=(1e-7 * float(np.max(np.abs(gw))) + 1e-8) if pk_ else 1e-8,
                                what='gradient of the hierarchical posterior')
+                    want_ = float(np.real(ref_post(v_free)[0]))
+                    case.close(sc, want_, rtol=1e-6, atol=1e-8, what='score returned with the gradient of the hierarchical '
+                               'posterior')
+                    case.close(P(v_free.copy()), want_, rtol=1e-6, atol=1e-8,
+                               what='hierarchical log-posterior evaluated AFTER its gradient')
 
     if s['mech']['kind'] == 'pkpd':
         with case.clause('dosing_regimens'):
